@@ -40,11 +40,21 @@ type Trace struct {
 	Sweep  bool   `json:"sweep,omitempty"`
 	Stride int    `json:"stride,omitempty"` // sweep stride (1 = every position)
 	Note   string `json:"note,omitempty"`
+	// Prelude, when set, makes replay first execute the run indices that the
+	// same worker shard executed before this one (state that survives from run
+	// to run inside one process, e.g. a package-level pool, needs them).
+	Prelude *Prelude `json:"prelude,omitempty"`
 
 	// filled in when a violation is reported
 	Oracle  string `json:"oracle,omitempty"`
 	Detail  string `json:"detail,omitempty"`
 	LogHash uint64 `json:"log_hash,omitempty"`
+}
+
+type Prelude struct {
+	Tier    string `json:"tier"`
+	Shard   int    `json:"shard"`
+	NShards int    `json:"nshards"`
 }
 
 func (t *Trace) Clone() *Trace {
